@@ -38,14 +38,12 @@ def kernel_counter(rep, ctx):
 def run(rep, tier, seed):
     rep.need_witness('c02_checked_with_load')
     acts = ('connect', 'finish')
-    if tier == 'quick':
-        runs = [('W1', dict(W=1, L=1, turns=3, env_per_turn=3, max_conns=5, actions=acts, checks=(chk_c02,))),
-                ('W2', dict(W=2, L=1, turns=3, env_per_turn=2, max_conns=4, actions=acts, checks=(chk_c02,)))]
-    else:
-        runs = [('W1', dict(W=1, L=1, turns=4, env_per_turn=3, max_conns=6, actions=acts, checks=(chk_c02,))),
-                ('W1-race', dict(W=1, L=1, turns=3, env_per_turn=3, max_conns=4, actions=acts, race=True, pickup=True, checks=(chk_c02,))),
-                ('W2', dict(W=2, L=1, turns=4, env_per_turn=2, max_conns=5, actions=acts, pickup=True, checks=(chk_c02,))),
-                ('W3', dict(W=3, L=1, turns=3, env_per_turn=3, max_conns=6, actions=acts, checks=(chk_c02,)))]
+    q = tier == 'quick'
+    runs = [('W1', dict(W=1, L=1, turns=14, env_per_turn=3, max_conns=7 if q else 9, actions=acts, checks=(chk_c02,))),
+            ('W1-race', dict(W=1, L=1, turns=12, env_per_turn=2, max_conns=5 if q else 7, actions=acts, race=True, pickup=True, checks=(chk_c02,))),
+            ('W2', dict(W=2, L=1, turns=12, env_per_turn=2, max_conns=5 if q else 6, actions=acts, pickup=True, checks=(chk_c02,)))]
+    if not q:
+        runs += [('W3', dict(W=3, L=1, turns=10, env_per_turn=3, max_conns=6, actions=acts, checks=(chk_c02,)))]
     ctx = run_accept_property(rep, 'C02', runs, tier, seed)
     if ctx is not None: kernel_counter(rep, ctx)
 
